@@ -30,6 +30,8 @@ ENTRY = dict(
         "after re-establishment start-master sent again, devices see True, same device objects": "theorem (queued behind older requests, FIFO) + correspondence (frames on successive fake transports, id() of device objects)",
         "number of background tasks does not grow": "theorem + correspondence (asyncio.all_tasks() classified after every event)",
         "loss while frame consumers are in the middle of a frame (they exit while disconnected and must be replaced)": "theorem (consumers_topped_up, consumers_bounded, read_balance, frames_reach_same_device) + correspondence: 'gated' histories (slow subscriber on the protocol's new-device event) are replayed by the Lean driver and compared state by state (consumer count, read queue length, deliveries), plus the statement-level oracle",
+        "a (re)connect attempt that neither succeeds nor raises is abandoned after CONNECT_TIMEOUT and retried": "theorem (hung_open_times_out, open_timeout_backs_off, retry_until_success_hung) + correspondence on the library's own TcpConnection / SerialConnection (asyncio.open_connection / open_serial_connection replaced by a scripted network that answers ok / raises / never) as well as on the Connection extension point",
+        "frames that cannot be delivered (undecodable payload, sender without device class) cost no consumer": "theorem (consumers_topped_up, frames_reach_same_device with the pseudo kind 0) + correspondence (F:u / F:o feeds)",
         "a peer that stalls in the middle of a frame is detected": "correspondence (stall after k bytes for every cut point of a frame; the model's read timeout is per read() call) + statement-level oracle (loss handled within READER_TIMEOUT)",
     },
     assumptions=COMMON_ASSUME + [
